@@ -923,7 +923,7 @@ Proof.
       assert (E' : sel = pre' ++ BSL :: DOT :: post) by (rewrite E, <- app_assoc; reflexivity).
       rewrite IH; [| lia |].
       * rewrite E', split_go_esc by exact Hn'. rewrite !rev_app_distr. cbn [rev app].
-        rewrite <- app_assoc. reflexivity.
+        rewrite <- ?app_assoc. reflexivity.
       * rewrite E', has_dotdot_esc in ND by exact Hn'. exact ND.
     + rewrite E in ND. rewrite has_dotdot_lit in ND by assumption.
       rewrite E, split_go_lit, rev_involutive by assumption.
@@ -945,3 +945,279 @@ Qed.
 (* selectors without the ".." form are split on unescaped dots *)
 Theorem selector_split s : has_dotdot s = false -> parse_selector s = Ok (split_unesc s).
 Proof. intro H. unfold parse_selector. rewrite psel_split by (assumption || lia). reflexivity. Qed.
+
+(* ------------------------------------------------------------------------------------------ *)
+(* D. ParseNestedFields                                                                        *)
+(* ------------------------------------------------------------------------------------------ *)
+Lemma is_prefix_refl p : is_prefix p p = true.
+Proof. induction p as [|x p IH]; [reflexivity|]. cbn. rewrite key_eqb_refl. exact IH. Qed.
+Lemma is_prefix_trans a : forall b c, is_prefix a b = true -> is_prefix b c = true -> is_prefix a c = true.
+Proof.
+  induction a as [|x a IH]; intros [|y b] [|z c]; cbn; try discriminate; try reflexivity.
+  intros H1 H2. apply andb_true_iff in H1 as [E1 H1]. apply andb_true_iff in H2 as [E2 H2].
+  apply key_eqb_eq in E1. apply key_eqb_eq in E2. subst. rewrite key_eqb_refl. cbn. eapply IH; eassumption.
+Qed.
+Lemma is_prefix_length a : forall b, is_prefix a b = true -> (length a <= length b)%nat.
+Proof.
+  induction a as [|x a IH]; intros [|y b]; cbn; try discriminate; try lia.
+  intro H. apply andb_true_iff in H as [_ H]. apply IH in H. lia.
+Qed.
+Lemma is_prefix_same_length a : forall b, is_prefix a b = true -> length a = length b -> a = b.
+Proof.
+  induction a as [|x a IH]; intros [|y b]; cbn; try discriminate; try reflexivity.
+  intros H L. apply andb_true_iff in H as [E H]. apply key_eqb_eq in E. subst. f_equal. apply IH; [exact H|lia].
+Qed.
+Lemma path_eqb_firstn sp : forall lp, path_eqb sp (firstn (length sp) lp) = is_prefix sp lp.
+Proof.
+  induction sp as [|x sp IH]; intros [|y lp]; cbn; try reflexivity. rewrite IH. reflexivity.
+Qed.
+
+Lemma slice_to_firstn {A} (l : list A) n : (n <= length l)%nat -> slice_to l (Z.of_nat n) = Ok (firstn n l).
+Proof.
+  intro L. unfold slice_to, slice, len.
+  replace ((0 <=? 0) && (0 <=? Z.of_nat n) && (Z.of_nat n <=? Z.of_nat (length l))) with true
+    by (symmetry; rewrite !andb_true_iff, !Z.leb_le; lia).
+  rewrite Z.sub_0_r, Nat2Z.id. reflexivity.
+Qed.
+
+Lemma covered_ok before lp :
+  Forall (fun b => (length b <= length lp)%nat) before ->
+  covered before lp = Ok (existsb (fun sp => is_prefix sp lp) before).
+Proof.
+  induction 1 as [|sp r L _ IH]; [reflexivity|].
+  cbn [covered existsb]. unfold len. rewrite slice_to_firstn by exact L. cbn [bind].
+  rewrite path_eqb_firstn. destruct (is_prefix sp lp); [reflexivity|exact IH].
+Qed.
+
+Fixpoint lsorted (l : list path) : Prop :=
+  match l with
+  | [] => True
+  | x :: r => Forall (fun y => (length x <= length y)%nat) r /\ lsorted r
+  end.
+
+Fixpoint nest_pure (before rest : list path) : list path :=
+  match rest with
+  | [] => []
+  | lp :: r =>
+      if existsb (fun sp => is_prefix sp lp) before then nest_pure (before ++ [lp]) r
+      else lp :: nest_pure (before ++ [lp]) r
+  end.
+
+Lemma nest_loop_pure : forall rest before racc,
+  lsorted rest -> (forall b r, In b before -> In r rest -> (length b <= length r)%nat) ->
+  nest_loop before rest racc = Ok (rev racc ++ nest_pure before rest).
+Proof.
+  induction rest as [|lp r IH]; intros before racc LS LB.
+  - cbn. rewrite app_nil_r. reflexivity.
+  - cbn [nest_loop nest_pure]. destruct LS as [LS1 LS2].
+    rewrite covered_ok.
+    2:{ apply Forall_forall. intros b Hb. apply LB; [exact Hb|left; reflexivity]. }
+    cbn [bind]. rewrite IH; [| exact LS2 |].
+    + destruct (existsb (fun sp => is_prefix sp lp) before); [reflexivity|].
+      cbn [rev]. rewrite <- app_assoc. reflexivity.
+    + intros b x Hb Hx. apply in_app_or in Hb as [Hb|[<-|[]]].
+      * apply LB; [exact Hb|right; exact Hx].
+      * rewrite Forall_forall in LS1. apply LS1. exact Hx.
+Qed.
+
+Lemma insert_len_perm p l : Permutation (p :: l) (insert_len p l).
+Proof.
+  induction l as [|q r IH]; [apply Permutation_refl|]. cbn [insert_len].
+  destruct (length p <? length q)%nat; [apply Permutation_refl|].
+  eapply Permutation_trans; [apply perm_swap|apply perm_skip; exact IH].
+Qed.
+Lemma insert_len_sorted p l : lsorted l -> lsorted (insert_len p l).
+Proof.
+  induction l as [|q r IH]; intro LS; [cbn; auto|]. cbn [insert_len].
+  destruct LS as [LS1 LS2]. destruct (Nat.ltb_spec (length p) (length q)) as [Hlt|Hge].
+  - cbn [lsorted]. repeat split; try assumption. constructor; [lia|].
+    eapply Forall_impl; [|exact LS1]. cbn. intros; lia.
+  - cbn [lsorted]. split; [|apply IH; exact LS2].
+    apply Forall_forall. intros y Hy.
+    eapply Permutation_in in Hy; [|apply Permutation_sym; apply insert_len_perm].
+    destruct Hy as [<-|Hy]; [exact Hge|]. rewrite Forall_forall in LS1. apply LS1. exact Hy.
+Qed.
+Lemma sort_len_spec ps : Permutation ps (sort_len ps) /\ lsorted (sort_len ps).
+Proof.
+  unfold sort_len.
+  assert (G : forall acc, lsorted acc ->
+            Permutation (acc ++ ps) (fold_left (fun acc p => insert_len p acc) ps acc) /\
+            lsorted (fold_left (fun acc p => insert_len p acc) ps acc)).
+  { induction ps as [|p ps IH]; intros acc LS.
+    - cbn. rewrite app_nil_r. split; [apply Permutation_refl|exact LS].
+    - cbn [fold_left]. destruct (IH (insert_len p acc) (insert_len_sorted p acc LS)) as [P S].
+      split; [|exact S]. eapply Permutation_trans; [|exact P].
+      eapply Permutation_trans; [apply Permutation_sym; apply Permutation_middle|].
+      apply (Permutation_app_tail ps (insert_len_perm p acc)). }
+  apply (G []). exact I.
+Qed.
+
+Theorem nest_pure_eq ps : nest ps = Ok (nest_pure [] (sort_len ps)).
+Proof.
+  unfold nest. rewrite nest_loop_pure; [reflexivity|apply sort_len_spec|]. intros b r [].
+Qed.
+
+Definition covers (ps qs : list path) : Prop :=
+  forall p, In p ps -> exists q, In q qs /\ is_prefix q p = true.
+
+Lemma existsb_prefix_in before lp :
+  existsb (fun sp => is_prefix sp lp) before = true -> exists b, In b before /\ is_prefix b lp = true.
+Proof. intro H. apply existsb_exists in H. exact H. Qed.
+
+Lemma nest_pure_incl : forall rest before x, In x (nest_pure before rest) -> In x rest.
+Proof.
+  induction rest as [|lp r IH]; intros before x H; [exact H|]. cbn [nest_pure] in H.
+  destruct (existsb _ before); [right; eapply IH; exact H|].
+  destruct H as [<-|H]; [left; reflexivity|right; eapply IH; exact H].
+Qed.
+
+Lemma nest_pure_cover : forall rest before K,
+  covers before K -> covers rest (K ++ nest_pure before rest).
+Proof.
+  induction rest as [|lp r IH]; intros before K CB p Hp; [destruct Hp|].
+  cbn [nest_pure]. destruct (existsb (fun sp => is_prefix sp lp) before) eqn:EX.
+  - apply existsb_prefix_in in EX as (b & Hb & Pb). destruct (CB b Hb) as (q & Hq & Pq).
+    assert (CB' : covers (before ++ [lp]) K).
+    { intros x Hx. apply in_app_or in Hx as [Hx|[<-|[]]]; [apply CB; exact Hx|].
+      exists q. split; [exact Hq|eapply is_prefix_trans; eassumption]. }
+    destruct Hp as [<-|Hp].
+    + exists q. split; [apply in_or_app; left; exact Hq|eapply is_prefix_trans; eassumption].
+    + apply (IH _ _ CB' p Hp).
+  - assert (CB' : covers (before ++ [lp]) (K ++ [lp])).
+    { intros x Hx. apply in_app_or in Hx as [Hx|[<-|[]]].
+      - destruct (CB x Hx) as (q & Hq & Pq). exists q. split; [apply in_or_app; left; exact Hq|exact Pq].
+      - exists lp. split; [apply in_or_app; right; left; reflexivity|apply is_prefix_refl]. }
+    replace (K ++ lp :: nest_pure (before ++ [lp]) r) with ((K ++ [lp]) ++ nest_pure (before ++ [lp]) r)
+      by (rewrite <- app_assoc; reflexivity).
+    destruct Hp as [<-|Hp].
+    + exists lp. split; [apply in_or_app; left; apply in_or_app; right; left; reflexivity|apply is_prefix_refl].
+    + apply (IH _ _ CB' p Hp).
+Qed.
+
+Lemma nest_pure_pf : forall rest before,
+  lsorted rest ->
+  (forall x, In x (nest_pure before rest) -> forall b, In b before -> is_prefix b x = false) /\
+  prefix_free (nest_pure before rest).
+Proof.
+  induction rest as [|lp r IH]; intros before LS; [split; [intros x []|exact I]|].
+  destruct LS as [LS1 LS2]. destruct (IH (before ++ [lp]) LS2) as [A B].
+  cbn [nest_pure]. destruct (existsb (fun sp => is_prefix sp lp) before) eqn:EX.
+  - split; [|exact B]. intros x Hx b Hb. apply (A x Hx). apply in_or_app. left. exact Hb.
+  - split.
+    + intros x [<-|Hx] b Hb.
+      * destruct (is_prefix b lp) eqn:E; [|reflexivity].
+        assert (existsb (fun sp => is_prefix sp lp) before = true)
+          by (apply existsb_exists; exists b; split; assumption). congruence.
+      * apply (A x Hx). apply in_or_app. left. exact Hb.
+    + cbn [prefix_free]. split; [|exact B]. apply Forall_forall. intros q Hq.
+      assert (P1 : is_prefix lp q = false).
+      { apply (A q Hq). apply in_or_app. right. left. reflexivity. }
+      split; [exact P1|]. destruct (is_prefix q lp) eqn:E; [|reflexivity].
+      assert (Lq : (length lp <= length q)%nat).
+      { rewrite Forall_forall in LS1. apply LS1. eapply nest_pure_incl. exact Hq. }
+      pose proof (is_prefix_length _ _ E) as Lq'.
+      apply is_prefix_same_length in E; [|lia]. subst q. rewrite is_prefix_refl in P1. discriminate.
+Qed.
+
+(* what ParseNestedFields leaves: a prefix-free subset that covers every listed path *)
+Theorem nest_spec ps : exists R,
+  nest ps = Ok R /\ incl R ps /\ covers ps R /\ prefix_free R.
+Proof.
+  exists (nest_pure [] (sort_len ps)). destruct (sort_len_spec ps) as [P S]. repeat split.
+  - apply nest_pure_eq.
+  - intros x Hx. apply nest_pure_incl in Hx. eapply Permutation_in; [apply Permutation_sym; exact P|exact Hx].
+  - intros p Hp. apply (nest_pure_cover (sort_len ps) [] []); [intros x []|].
+    eapply Permutation_in; [exact P|exact Hp].
+  - apply nest_pure_pf. exact S.
+Qed.
+
+(* ------------------------------------------------------------------------------------------ *)
+(* G. path sets that cover each other select the same parts                                    *)
+(* ------------------------------------------------------------------------------------------ *)
+Definition no_empty (ps : list path) : Prop := Forall (fun p => p <> []) ps.
+
+Lemma tails_in k t ps : In t (tails k ps) <-> In (k :: t) ps.
+Proof.
+  induction ps as [|[|k' t'] r IH]; cbn [tails In].
+  - tauto.
+  - rewrite IH. split; [tauto|]. intros [H|H]; [discriminate|exact H].
+  - destruct (key_eqb k' k) eqn:E.
+    + apply key_eqb_eq in E. subst. cbn [In]. rewrite IH. split; intros [H|H]; try tauto.
+      * left. congruence.
+      * left. congruence.
+    + apply key_eqb_neq in E. rewrite IH. split; [tauto|]. intros [H|H]; [congruence|exact H].
+Qed.
+
+Lemma existsb_nil_tails k ps : existsb is_nil (tails k ps) = true <-> In [k] ps.
+Proof.
+  rewrite existsb_exists. split.
+  - intros ([|] & H & E); [|discriminate]. apply tails_in. exact H.
+  - intro H. exists []. split; [apply tails_in; exact H|reflexivity].
+Qed.
+
+Lemma bool_eq_iff (a b : bool) : (a = true <-> b = true) -> a = b.
+Proof. destruct a, b; intros [H1 H2]; try reflexivity; [symmetry; apply H1; reflexivity|apply H2; reflexivity]. Qed.
+
+Lemma covers_whole k ps qs : no_empty qs -> covers ps qs -> In [k] ps -> In [k] qs.
+Proof.
+  intros NE C H. destruct (C _ H) as (q & Hq & P).
+  destruct q as [|x [|y q]]; cbn in P.
+  - unfold no_empty in NE; rewrite Forall_forall in NE. exfalso. apply (NE _ Hq). reflexivity.
+  - rewrite andb_true_r in P. apply key_eqb_eq in P. subst. exact Hq.
+  - rewrite andb_false_r in P. discriminate.
+Qed.
+
+Lemma covers_tails k ps qs : no_empty qs -> covers ps qs -> covers (tails k ps) (tails k qs).
+Proof.
+  intros NE C t Ht. apply tails_in in Ht. destruct (C _ Ht) as (q & Hq & P).
+  destruct q as [|x q]; [unfold no_empty in NE; rewrite Forall_forall in NE; exfalso; apply (NE _ Hq); reflexivity|].
+  cbn in P. apply andb_true_iff in P as [E P]. apply key_eqb_eq in E. subst.
+  exists q. split; [apply tails_in; exact Hq|exact P].
+Qed.
+
+Lemma no_empty_tails k ps : existsb is_nil (tails k ps) = false -> no_empty (tails k ps).
+Proof.
+  intro H. unfold no_empty. apply Forall_forall. intros t Ht E. subst.
+  assert (existsb is_nil (tails k ps) = true) by (apply existsb_exists; exists []; split; [exact Ht|reflexivity]).
+  congruence.
+Qed.
+
+Theorem spec_cover_eq : forall j ps qs,
+  no_empty ps -> no_empty qs -> covers ps qs -> covers qs ps ->
+  subtract ps j = subtract qs j /\ proj ps j = proj qs j.
+Proof.
+  induction j as [|x|x|x|l _|fs IH] using json_ind2; intros ps qs NP NQ C1 C2; try (split; reflexivity).
+  rewrite !subtract_obj, !proj_obj.
+  assert (G : sub_fields ps fs = sub_fields qs fs /\ proj_fields ps fs = proj_fields qs fs).
+  { induction IH as [|[k v] r Hv _ IHr]; [split; reflexivity|]. destruct IHr as [I1 I2].
+    cbn [sub_fields proj_fields]. cbn [snd] in Hv.
+    assert (E : existsb is_nil (tails k ps) = existsb is_nil (tails k qs)).
+    { apply bool_eq_iff. rewrite !existsb_nil_tails. split; apply covers_whole; assumption. }
+    rewrite <- E. destruct (existsb is_nil (tails k ps)) eqn:EN.
+    - rewrite I1, I2. split; reflexivity.
+    - destruct (Hv (tails k ps) (tails k qs)) as [H1 H2].
+      + apply no_empty_tails. exact EN.
+      + apply no_empty_tails. symmetry. exact E.
+      + apply covers_tails; assumption.
+      + apply covers_tails; assumption.
+      + rewrite H1, H2, I1, I2. split; reflexivity. }
+  destruct G as [G1 G2]. rewrite G1, G2. split; reflexivity.
+Qed.
+
+Lemma is_prefix_app p q : is_prefix p (p ++ q) = true.
+Proof. induction p as [|x p IH]; [reflexivity|]. cbn. rewrite key_eqb_refl. exact IH. Qed.
+
+(* listing a path together with one of its descendants = listing the path alone *)
+Theorem spec_nested_idem : forall ps p q j,
+  no_empty ps -> In p ps ->
+  subtract ((p ++ q) :: ps) j = subtract ps j /\ proj ((p ++ q) :: ps) j = proj ps j.
+Proof.
+  intros ps p q j NE Hp. apply spec_cover_eq.
+  - constructor; [|exact NE]. unfold no_empty in NE. rewrite Forall_forall in NE. specialize (NE _ Hp).
+    destruct p; [congruence|discriminate].
+  - exact NE.
+  - intros x [<-|Hx].
+    + exists p. split; [exact Hp|apply is_prefix_app].
+    + exists x. split; [exact Hx|apply is_prefix_refl].
+  - intros x Hx. exists x. split; [right; exact Hx|apply is_prefix_refl].
+Qed.
